@@ -2,8 +2,10 @@
 import hashlib
 import json
 import os
+import shutil
 import subprocess
 import sys
+import tempfile
 
 from .. import lang, render, refmodel, hidc_api
 from ..harness import case_rng, ROOT
@@ -26,11 +28,63 @@ RULE = ('case i draws a batch of 6 seeded programs from the union of all generat
         'run-time lengths back to back, in a callee and in a loop, filled and only then read back) is run at every word '
         'size in {2,3,4,5,6,7,8}; whenever the reference histories at w < w\' agree the SVM histories must agree. '
         '(d) lint: --lint either raises a compiler diagnostic or yields byte-identical assembly. '
+        '(e) process environment: one program of the batch with non-ASCII text (a comment is appended when it has none) '
+        'is compiled by the command-line tool on the fake file system under the simulated locale encodings utf-8, ascii, '
+        'latin-1 and cp1252, and - every fourth case - by the real tool in two fresh interpreters (LC_ALL=C.utf8; LC_ALL=C '
+        'with locale coercion and UTF-8 mode off, another hash seed, another working directory); every build must equal '
+        'the in-process API build byte for byte. '
         'distinct = hash(batch sources); non-trivial = all four sub-checks executed for the batch.')
-ASSUMPTIONS = ['PYTHONHASHSEED is the only per-process source of nondeterminism in hidc (no clocks, ids or paths in the output)',
+ASSUMPTIONS = ['PYTHONHASHSEED and the locale encoding are the per-process inputs hidc could depend on (no clocks, ids or paths in the output)',
                'SVM and reference model as for C01/C02']
 CLASSES = ('nondeterministic-build', 'stack-changes-meaning', 'word-size-changes-meaning', 'lint-changes-code',
-           'internal-error')
+           'internal-error', 'locale-changes-build', 'file-path-differs', 'environment-changes-build')
+
+REAL_ENVS = (('LC_ALL=C.utf8', {'LC_ALL': 'C.utf8'}),
+             ('LC_ALL=C without locale coercion and UTF-8 mode', {'LC_ALL': 'C', 'LANG': 'C', 'PYTHONCOERCECLOCALE': '0', 'PYTHONUTF8': '0'}))
+
+
+def real_env_builds(src, W, hashseed):
+    """The real command-line tool in fresh interpreters under two process environments. -> [(name, status, bytes|None, stderr)]"""
+    out = []
+    d = tempfile.mkdtemp(prefix='hidc18_')
+    try:
+        with open(os.path.join(d, 'in.hid'), 'wb') as f:
+            f.write(src.encode('utf-8'))
+        for k, (name, extra) in enumerate(REAL_ENVS):
+            env = {kk: v for kk, v in os.environ.items() if not kk.startswith('LC_') and kk not in ('LANG', 'PYTHONUTF8', 'PYTHONCOERCECLOCALE')}
+            env.update(extra, PYTHONPATH=hidc_api.REPO, PYTHONDONTWRITEBYTECODE='1', PYTHONHASHSEED=str(hashseed if k else 0))
+            cwd = d if k == 0 else tempfile.gettempdir()
+            outp = os.path.join(d, f'out{k}.s')
+            r = subprocess.run([sys.executable, '-m', 'hidc', os.path.join(d, 'in.hid'), '-o', outp, f'-m{8 * W}'], cwd=cwd, env=env,
+                               stdout=subprocess.PIPE, stderr=subprocess.PIPE, timeout=120)
+            out.append((name, r.returncode, open(outp, 'rb').read() if os.path.exists(outp) else None,
+                        r.stderr.decode('utf-8', 'replace')[-200:]))
+    finally:
+        shutil.rmtree(d, ignore_errors=True)
+    return out
+
+
+def check_environment(src, W, hashseed, real):
+    """-> violations [(cls, detail)], fired {kind: n}"""
+    fired = {}
+    if not any(ord(c) >= 0x80 for c in src):
+        src = src + '\n// na\u00efve \u2603 \u00fcber\n'
+    try:
+        lines = hidc_api.compile_source(src, word_size=W, stack_size=500, unchecked=False, lint=False)
+    except Exception:   # noqa: BLE001 - rejected or internal: judged by the other clauses
+        return [], fired, src
+    want = b''.join(l + b'\n' for l in lines)
+    fp = common.file_path_problem(src, W, stack=500, stats=fired)
+    if fp:
+        return [fp], fired, src
+    if real:
+        for name, status, got, err in real_env_builds(src, W, hashseed):
+            fired['real_process_env'] = fired.get('real_process_env', 0) + 1
+            if status != 0 or got is None:
+                return [('environment-changes-build', f'the API compiles this source but `python -m hidc` under {name} exits {status}: {err!r}')], fired, src
+            if got != want:
+                return [('environment-changes-build', f'`python -m hidc` under {name} writes {len(got)} bytes that differ from the API build ({len(want)} bytes)')], fired, src
+    return [], fired, src
 
 
 def sub_compile(jobs, hashseed):
@@ -149,10 +203,15 @@ def layout_prog(rnd):
     return prog([], fs + [callee, func('empty', '@is_you', [('int', 'q')], *body)]), [str(rnd.randrange(1, 5))]
 
 
-def judge_batch(batch, hashseeds):
+def judge_batch(batch, hashseeds, real_env=False):
     """batch: list of (prog, argv, W, kind, src).  -> violations, stats"""
     viol = []
-    stats = {'subprocess_compiles': 0, 'stack_runs': 0, 'word_runs': 0, 'lint_pairs': 0, 'lint_rejected': 0}
+    stats = {'subprocess_compiles': 0, 'stack_runs': 0, 'word_runs': 0, 'lint_pairs': 0, 'lint_rejected': 0, 'env_fired': {}}
+    # process environment (locale encoding, working directory) on one program of the batch
+    n_env = next((n for n, b in enumerate(batch) if any(ord(c) >= 0x80 for c in b[4])), len(batch) - 1)
+    v, fired, _ = check_environment(batch[n_env][4], batch[n_env][2], hashseeds[-1], real_env)
+    stats['env_fired'] = fired
+    viol += [(c, d, n_env) for c, d in v]
     jobs = []
     for p, argv, W, kind, src in batch:
         jobs.append({'src': src, 'W': W, 'stack': 500, 'unchecked': False, 'lint': False})
@@ -210,13 +269,13 @@ def case(seed, idx, tier):
         batch.append((p, argv, W, kind, src))
     hashseeds = [0, rnd.randrange(1, 1 << 31), rnd.randrange(1, 1 << 31), rnd.randrange(1, 1 << 31)]
     res = common.new_result()
-    viol, stats = judge_batch(batch, hashseeds)
+    viol, stats = judge_batch(batch, hashseeds, real_env=(idx % 4 == 0))
     res['key'] = digest(*[b[4] for b in batch])
     res['nontrivial'] = bool(stats['subprocess_compiles'] and stats['stack_runs'] and stats['word_runs'] and stats['lint_pairs'])
     res['counters'].update({k: v for k, v in stats.items() if isinstance(v, int)})
     res['counters']['svm_runs'] = stats['stack_runs'] + stats['word_runs']
     res['counters']['programs'] = len(batch)
-    res['faults_fired'] = {'hash_seed': len(hashseeds), 'fresh_process': len(hashseeds)}
+    res['faults_fired'] = dict({'hash_seed': len(hashseeds), 'fresh_process': len(hashseeds)}, **stats['env_fired'])
     res['digest'] = digest(res['key'], [(v[0], v[1]) for v in viol])
     if idx < 2:
         res['sample'] = {'first_program': batch[0][4][:1200], 'argv': batch[0][1], 'hashseeds': hashseeds, 'stats': stats}
@@ -224,12 +283,12 @@ def case(seed, idx, tier):
         p, argv, W, kind, src = batch[n]
         res['violations'].append({'cls': cls, 'detail': detail, 'fingerprint': None,
                                   'payload': {'batch': [[lang.to_json(b[0]), b[1], b[2], b[3], b[4]] for b in batch],
-                                              'hashseeds': hashseeds, 'culprit': n},
+                                              'hashseeds': hashseeds, 'culprit': n, 'real_env': idx % 4 == 0},
                                   'sample': {'source': src[:1500], 'argv': argv, 'W': W}})
     return res
 
 
 def replay(pl):
     batch = [(lang.from_json(b[0]), b[1], b[2], b[3], b[4]) for b in pl['batch']]
-    viol, _ = judge_batch(batch, pl['hashseeds'])
+    viol, _ = judge_batch(batch, pl['hashseeds'], real_env=pl.get('real_env', False))
     return [{'cls': c, 'detail': d, 'fingerprint': None} for c, d, _ in viol]
